@@ -79,3 +79,19 @@ pub fn sym_heap_atom<const L: usize>(a: &mut Allocator) -> (NodePtr, [u8; L]) {
     let n = a.new_substr(base, 1, 1 + L as u32).unwrap();
     (n, buf)
 }
+
+/// arm harness with the BLS model (S4) on top of the parse_args stub
+#[macro_export]
+macro_rules! sig_harness {
+    ($name:ident, $stub:path, $unwind:expr, $body:block) => {
+        #[kani::proof]
+        #[kani::unwind($unwind)]
+        #[kani::stub(std::hash::RandomState::new, $crate::stubs::fixed_keys)]
+        #[kani::stub(std::vec::Vec::reserve, $crate::stubs::reserve_stub)]
+        #[kani::stub(chia_consensus::conditions::parse_args, $stub)]
+        #[kani::stub(chia_bls::PublicKey::from_bytes, $crate::stubs::pk_from_bytes_stub)]
+        #[kani::stub(chia_bls::PublicKey::is_inf, $crate::stubs::pk_is_inf_stub)]
+        #[kani::stub(chia_bls::PublicKey::to_bytes, $crate::stubs::pk_to_bytes_stub)]
+        fn $name() $body
+    };
+}
